@@ -1576,7 +1576,7 @@ Proof.
   - apply (Inv4_state s); auto. cbn. intros Hq. rewrite Hq in H. discriminate.
   - apply (Inv4_state s); auto. cbn. intros Hq. rewrite Hq in H. discriminate.
   - (* uv_write refused *)
-    apply Inv4_event; [ | | simpl; auto].
+    apply Inv4_event; [ | simpl; auto | ].
     + intros X HX. cbn in HX. destruct HX as [HX|HX]; [subst X; simpl; auto|].
       destruct X as [| | | | | | z | a | c | |]; simpl; auto.
       * destruct z; simpl; auto. apply (check_some_code _ _ H).
